@@ -435,3 +435,17 @@ CHECKS["C09"]["partial"] = [{"theorem": "C09 for views containing Show", "missin
 CHECKS["C09"]["manifest_note"] = ("Model/Hydrate.lean mirrors HydrateNode::append_child / hydrate_in_scope (k-th dynamic region finds its `<!--/-->` end marker, dynamic text splits off after `<!--t-->`, elements are looked up by key) "
                                   "and is run by the driver against the real hydrate back end on every generated view (document structure after hydration and after each write). Known finding D12: hydrating the Show component — reported as KNOWN-FINDING; "
                                   "any other hydration failure is a violation. Views with NoHydrate/NoSsr/Keyed are not in the view language yet.")
+CHECKS["C01"]["classes"] = CHECKS["C01"]["classes"] + ["missed-run"]
+
+# --- C10 clause (ii): end-of-batch consistency, multi-start propagation (delivered by a proof sub-agent)
+CHECKS["C10"]["lean_modules"] = CHECKS["C10"]["lean_modules"] + ["SycVerif.Props.C10Batch"]
+CHECKS["C10"]["theorems"] += [RX + n for n in ["C10_batch_end_consistent", "C10_batch_end_consistent_run", "C10_batch_end_consistent_sharp", "C10_batch_end_consistent_runC",
+                                                "C10_batch_end_written", "C10_batch_single", "C10_batch_consistent_at_end", "C10_batch_consistent_at_end_sharp",
+                                                "C10_batch_consistent_at_end_run", "C10_batch_consistent_at_end_runC", "batch_silent_counterexample",
+                                                "batchDemo_instance", "batchDemo_writes_instance", "batchDemo2_instance"]]
+CHECKS["C10"]["status"] = ("all three clauses proved over the model: (i) nothing reacts inside a batch at any depth (C10_batch_*_quiet), (iii) an empty batch is a no-op, and (ii) for every pure program "
+                           "(DynArena) and every write-only batch body without late edges, the end of the outermost batch — propagateNodeUpdates over ALL written signals, duplicates included, with the "
+                           "mark reset of the D13 repair — ends in a consistent arena, every computation ran at most once, only reachable ones ran, and every direct dependent of a written signal ran "
+                           "(C10_batch_end_consistent, C10_batch_consistent_at_end and their sharper variants); with late edges the statement is false (known finding D1), and with set_silent inside the batch "
+                           "it is false by design (batch_silent_counterexample)")
+CHECKS["C10"]["partial"] = [{"theorem": "C10 (ii) for impure bodies", "missing": "batch bodies that create/dispose nodes, and computations that write signals during the end-of-batch propagation (the D13 scenario): correspondence + oracle only"}]
